@@ -22,3 +22,6 @@ void prop_c08(hz::Ctx &);
 int replay_buf(const std::string &caseid);
 void prop_c09_grammar(hz::Ctx &);
 int replay_fz(const std::string &caseid);
+void prop_c17(hz::Ctx &);
+void prop_c19(hz::Ctx &);
+int replay_fi(const std::string &caseid);
